@@ -57,6 +57,7 @@ pub const SITES: &[Site] = &[
     site!("sparql_orderby", site_sparql_orderby, NOCAP, NOCAP, "rows", "sparql.order_by", all),
     site!("sparql_bgp", site_sparql_bgp, NOCAP, NOCAP, "rows", "sparql.bgp", all),
     site!("sparql_filter", site_sparql_filter, NOCAP, NOCAP, "rows-skipped", "sparql.filter", one),
+    site!("sparql_exists", site_sparql_exists, NOCAP, NOCAP, "rows", "sparql.filter-exists", all),
     site!("jsonld_list", site_jsonld_list, NOCAP, NOCAP, "list-items", "ser.jsonld", all),
     site!("jsonld_graphs", site_jsonld_graphs, NOCAP, 300_000, "named-graphs", "ser.jsonld", all),
     site!("jsonld_nodes", site_jsonld_nodes, 20_000, 60_000, "statements", "ser.jsonld", all),
@@ -760,6 +761,14 @@ fn site_sparql_orderby(size: usize) -> Result<u64, String> {
 fn site_sparql_filter(size: usize) -> Result<u64, String> {
     let d: LightDataset = build_dataset(Pos::S, size);
     sparql(&d, "SELECT ?s { ?s <x:p> ?o FILTER(?s = <x:match>) }")
+}
+
+// ---- FILTER (EXISTS … && NOT EXISTS …): `check_exists` once, then one `select` of each pattern per row
+#[inline(never)]
+fn site_sparql_exists(size: usize) -> Result<u64, String> {
+    let d: LightDataset = build_dataset(Pos::S, size);
+    sparql(&d, "SELECT ?s { ?s <x:p> ?o FILTER(EXISTS { ?s <x:p> <x:o> } && NOT EXISTS { ?s <x:nope> ?z }) }")
+        .map(|n| n.saturating_sub(1))
 }
 
 // ---- UNION, FILTER, BIND, DISTINCT, OFFSET over `size` rows
